@@ -138,9 +138,15 @@ def run_case(case):
         elif case["index"] % 4 == 3:
             sB = 0
         dfs = []
+        # one initial_states mapping object for all three runs of half of the cases (a
+        # seed-reproducibility loop re-uses its inputs); it must come back unchanged
+        st_shared = pipeline.jnp_states(init) if case["index"] % 2 == 0 else None
         for sd in (sA, sA, sB):
             traces.append([])
-            dfs.append(simcheck.simulate_once(fsim, params, init, vf, seed=sd))
+            dfs.append(simcheck.simulate_once(fsim, params, init, vf, seed=sd, st_obj=st_shared))
+        res["violations"] += simcheck.drain_argument_mutations()
+        if st_shared is not None:
+            add("runs_sharing_one_initial_states_mapping", 3)
     except Exception as e:  # noqa: BLE001
         res["violations"].append({"key": pipeline.exc_key(e, "simulate"), "what": pipeline.exc_text(e)})
         res["status"] = "violated"
